@@ -97,6 +97,11 @@ CHECKS["C20"] = dict(
     note="Trusted: pysym interpreter/models, z3. Real codecs and the OS are outside the claim (open() is a stub; only argument pass-through and equality with the string entry points are claimed).",
     ref="§4 C20")
 
+CHECKS["C07"] = dict(
+    text="allow_inplace_modification is a symbolic boolean and the input library is the parse of a partly symbolic document (duplicate keys, duplicate fields, failed blocks, @string reference, name and month fields), as split, after the default stack and after name splitting; each of the 18 shipped middleware configurations (and selected pairs; thorough: all ordered pairs) and write_string are executed symbolically. In every world where the flag is False (always for the block sorter / write_string) the engine's heap is walked to show that no mutable block, field, list, NameParts or metadata dict is reachable from both input and output, and z3 decides that the deep snapshot of the input before equals the one after; writing twice gives term-identical text and an unchanged format.",
+    note="Trusted: pysym interpreter/models (interpreted stdlib deepcopy), the heap walk in checks/c07.py, z3. Exception objects in failed blocks are shared by design and excluded.",
+    ref="§4 C07")
+
 NOT_YET = "check not built yet in this round (engine exists; harness pending)"
 
 def main():
